@@ -7,6 +7,7 @@ import (
 	"encoding/json"
 	"fmt"
 	"reflect"
+	"strings"
 )
 
 type M = map[string]any
@@ -74,6 +75,11 @@ func Check(props map[string]bool, prev, cur M) (string, string) {
 		}
 		if d := routedHasTask(prev, cur); d != "" {
 			return "C08", d
+		}
+	}
+	if props["C10"] {
+		if d := scheduleFiring(prev, cur); d != "" {
+			return "C10", d
 		}
 	}
 	if props["C09"] {
@@ -215,6 +221,67 @@ func routedHasTask(prev, cur M) string {
 		}
 		if _, has := tasks["__invoke:"+id]; !has {
 			return fmt.Sprintf("promise %q is routed (resonate:invoke=%q) but was created without its invocation task", id, tag)
+		}
+	}
+	return ""
+}
+
+var cronGrid = map[string]int64{"* * * * * *": 1000, "*/2 * * * * *": 2000, "*/5 * * * * *": 5000, "*/30 * * * * *": 30000, "* * * * *": 60000, "0 * * * * *": 60000}
+
+// C10: a schedule row changes only by one firing: last_run_time := the occurrence (its previous next_run_time),
+// next_run_time := the next occurrence after it, and the promise of that occurrence exists afterwards with
+// id = template(id, occurrence) and timeout = occurrence + promise_timeout (unless it existed before)
+func scheduleFiring(prev, cur M) string {
+	now := byKey(rows(cur, "schedules"), "id")
+	proms := byKey(rows(cur, "promises"), "id")
+	old := byKey(rows(prev, "promises"), "id")
+	for _, s := range rows(prev, "schedules") {
+		id := str(s["id"])
+		n, ok := now[id]
+		if !ok || num(n["sortId"]) != num(s["sortId"]) {
+			continue // deleted (or deleted and re-created)
+		}
+		if reflect.DeepEqual(s, n) {
+			continue
+		}
+		occ := num(s["nextRunTime"])
+		if n["lastRunTime"] == nil || num(n["lastRunTime"]) != occ {
+			return fmt.Sprintf("schedule %q changed without recording the fired occurrence %d: %v -> %v", id, occ, s, n)
+		}
+		if g, ok := cronGrid[str(s["cron"])]; ok {
+			if want := (occ/g + 1) * g; num(n["nextRunTime"]) != want {
+				return fmt.Sprintf("schedule %q advanced from %d to %d, the next occurrence is %d", id, occ, num(n["nextRunTime"]), want)
+			}
+		} else if num(n["nextRunTime"]) <= occ {
+			return fmt.Sprintf("schedule %q did not advance past %d", id, occ)
+		}
+		for _, f := range []string{"cron", "promiseId", "promiseTimeout", "promiseParamData", "promiseTags", "createdOn", "idempotencyKey", "tags"} {
+			if !reflect.DeepEqual(s[f], n[f]) {
+				return fmt.Sprintf("schedule %q: field %s changed by a firing", id, f)
+			}
+		}
+		tmpl := str(s["promiseId"])
+		pid := strings.ReplaceAll(strings.ReplaceAll(tmpl, "{{.id}}", id), "{{.timestamp}}", fmt.Sprint(occ))
+		if strings.Contains(pid, "{{") {
+			continue
+		}
+		p, ok := proms[pid]
+		if !ok {
+			return fmt.Sprintf("schedule %q fired occurrence %d but promise %q does not exist", id, occ, pid)
+		}
+		// the promise may have existed before, or may have been created in the same batch by another firing
+		// (another schedule / occurrence producing the same id): its fields are this firing's only if it carries this schedule's marker
+		if _, existed := old[pid]; !existed && pairs(p["tags"])["resonate:schedule"] == id && num(p["timeout"]) == occ+num(s["promiseTimeout"]) {
+			if num(p["timeout"]) != occ+num(s["promiseTimeout"]) {
+				return fmt.Sprintf("scheduled promise %q has timeout %d, want occurrence %d + %d", pid, num(p["timeout"]), occ, num(s["promiseTimeout"]))
+			}
+			tags := pairs(p["tags"])
+			if tags["resonate:schedule"] != id || tags["resonate:invocation"] != "true" {
+				return fmt.Sprintf("scheduled promise %q lacks the schedule marker tags: %v", pid, p["tags"])
+			}
+			if !reflect.DeepEqual(p["paramData"], s["promiseParamData"]) {
+				return fmt.Sprintf("scheduled promise %q does not carry the configured parameter", pid)
+			}
 		}
 	}
 	return ""
